@@ -13,7 +13,7 @@ PROPS["C04"] = dict(
     title="A message counter is accepted at most once per secure peer; newer ones always",
     scope="Step contracts of RxCtrState::{new,post_recv} (unicast encrypted, unsecured, roll-over) and GroupCtrStore::post_recv "
           "for all states and all counters; every finite history follows by induction over the step contracts.",
-    verus=[],
+    verus=["dedup"],
     kani=[
         H("c04_new_closes_window", obligations=["C04.new.closed_at_or_below_only", "C04.new.max"]),
         H("c04_post_recv_unicast_encrypted", obligations=[
